@@ -18,7 +18,7 @@ PROPS["C18"] = dict(
         "Panacea.C18.encode_length_exact", "Panacea.C18.decodeTyped_canonical", "Panacea.C18.decodeTyped_total",
         "Panacea.C18.string_roundtrip_admitted",
     ],
-    streams=[dict(name="compkey", quick=3000, thorough=60000, thorough_seeds=3)],
+    streams=[dict(name="compkey", quick=3000, thorough=60000, thorough_seeds=3), dict(name="genesis", quick=3, thorough=60, thorough_seeds=2)],
     trusted=[
         "hand-written Lean model Panacea/Model/CompKey.lean of types/compkey/compkey.go and x/aol/types/keys.go, tied by the compkey stream",
         "bech32 is a parameter (AddrCodec) with three stated laws; the real bech32 runs on the Go side and is supplied to the driver as a finite table",
@@ -329,7 +329,7 @@ REFINE = {
     "C13": ([_RA, _RAQ], R_COMPKEY + R_AOL + R_AOLQ),
     "C02": ([_RA, _RT], R_AOL + R_SIGNERS),
     "C15": ([_RT], R_SIGNERS),
-    "C16": ([_RT, _RD, _RP], R_VB + R_DIDV + R_PNFTV),
+    "C16": ([_RT, _RD, _RP, _RA], R_VB + R_DIDV + R_PNFTV + R_AOL[:4]),
     "C17": ([_RT, _RC, _RD, _RP, _RAQ], R_VB + R_SIGNERS + R_COMPKEY + R_DIDV[-3:] + R_PNFTV + R_AOLQ),
     "C06": ([_RP, _RPP], R_PNFTV + R_PNFTH + R_PNFTP06),
     "C12": ([_RP, _RPP, _RPQ], R_PNFTH + R_PNFTP12),
